@@ -12,7 +12,7 @@
     can only be observed with a time limit: that half is carried by the fuzz
     streams of the check (statement kinds of both engines, mutations, random
     bytes, file-system faults through the binary). *)
-From Verif Require Import Model.Compile Proofs.NoPanicFacts Proofs.ResolveNoPanic Proofs.PanicSources.
+From Verif Require Import Model.Compile Proofs.NoPanicFacts Proofs.ResolveNoPanic Proofs.PanicSources Proofs.FindParamsNoPanic Model.Shape Proofs.WalkersNoPanic Proofs.ComposedNoPanic.
 Open Scope string_scope.
 Open Scope list_scope.
 
@@ -70,6 +70,64 @@ Theorem C18_panic_sources_partial : forall e raw src positional,
       \/ (exists qc, is_panic_r (expand (fuel_of raw) e qc raw2))).
 Proof. exact parse_query_panic_sources. Qed.
 Print Assumptions C18_panic_sources_partial.
+
+(** the first of the four walkers: findParameters (paramSearch.Visit over the whole statement, with
+    the INSERT special case) cannot panic on a tree in which every INSERT whose source is a SELECT
+    node carries that node's TargetList and ValuesLists lists - [inserts_ok], evaluated on every
+    tree the real parsers return in the C03 check (a tree that fails it is reported there) *)
+Theorem C18_find_parameters_partial : forall root, inserts_ok root = true -> no_panic (find_parameters root).
+Proof. exact find_parameters_no_panic. Qed.
+Print Assumptions C18_find_parameters_partial.
+
+(** ** the composed compiler.  [shape_ok] (Model/Shape.v) says that the list-typed fields the
+    walkers index are lists - FromClause of UPDATE, the result / RETURNING list of every
+    statement, Ctes of a WITH clause - and that a sub-select in FROM has an alias; [inserts_ok]
+    the same for the source SELECT of an INSERT.  Both are evaluated on the (rewritten) tree of
+    every statement the real parsers return in the C03 check; a tree that fails them is reported
+    there.  Under them, and with the statement's slice inside the file, parseQuery returns a
+    query, "unsupported" or an error - never a panic - for every catalog and every tree:
+    sourceTables / outputColumns through sub-selects and set operations at any depth (induction
+    on the fuel), buildQueryCatalog, expand, findParameters, resolveCatalogRefs, the validators,
+    metadata.Parse, Mutate and StripComments. *)
+Theorem C18_output_columns_partial : forall fuel e ctes n, shape_ok n = true -> no_panic (output_columns fuel e ctes n).
+Proof. exact output_columns_no_panic. Qed.
+Print Assumptions C18_output_columns_partial.
+
+Theorem C18_parse_query_partial : forall e raw src positional,
+  walk_ok raw = true ->
+  no_panic (pluck src (int_of "StmtLocation" raw) (int_of "StmtLen" raw)) ->
+  shape_ok (fst (fst (named_parameters (env_engine e) raw))) = true ->
+  inserts_ok (kid "Stmt" (fst (fst (named_parameters (env_engine e) raw)))) = true ->
+  no_panic (parse_query e raw src positional).
+Proof. exact parse_query_no_panic. Qed.
+Print Assumptions C18_parse_query_partial.
+
+(** the hypotheses hold for a statement as the PostgreSQL parser returns it (and the conclusion is
+    the interesting branch: the statement compiles) *)
+Example C18_parse_query_non_vacuous :
+  let cat := mkCat "public" [mkSch "public" [mkTab "t" [mkCol "id" (mkQ "pg_catalog" "int4") true false ""] ""] [] ""; mkSch "pg_catalog" [] [] ""] in
+  let e := mkEnv EPostgres cat [] (fun _ => false) in
+  let sel := Node "SelectStmt" [] []
+    [("TargetList", NList [Node "ResTarget" [] [] [("Val", Node "ColumnRef" [] [] [("Fields", NList [Node "String" [("Str", "id")] [] []])])]]);
+     ("FromClause", NList [Node "RangeVar" [("Relname", "t")] [] []])] in
+  let src := "-- name: GetA :many" +++ String nl "SELECT id FROM t;" in
+  let raw := Node "RawStmt" [] [("StmtLen", 36%Z)] [("Stmt", sel)] in
+  walk_ok raw = true /\ shape_ok (fst (fst (named_parameters EPostgres raw))) = true
+  /\ inserts_ok (kid "Stmt" (fst (fst (named_parameters EPostgres raw)))) = true
+  /\ (exists q, parse_query e raw src false = Ok (Some q) /\ q_name q = "GetA").
+Proof. cbv zeta. repeat split; try (vm_compute; reflexivity). eexists. split; vm_compute; reflexivity. Qed.
+
+(** the shape hypothesis is needed: on a tree no parser produces (an UPDATE node without its
+    FromClause list) the model panics exactly where the Go code dereferences the nil list *)
+Theorem C18_refuted_on_malformed_tree :
+  let cat := mkCat "public" [mkSch "public" [mkTab "t" [mkCol "id" (mkQ "pg_catalog" "int4") true false ""] ""] [] ""; mkSch "pg_catalog" [] [] ""] in
+  let e := mkEnv EPostgres cat [] (fun _ => false) in
+  let upd := Node "UpdateStmt" [] [] [("Relation", Node "RangeVar" [("Relname", "t")] [] []); ("TargetList", NList []); ("ReturningList", NList [])] in
+  let src := "-- name: U :exec" +++ String nl "UPDATE t SET id = 1;" in
+  let raw := Node "RawStmt" [] [("StmtLen", 36%Z)] [("Stmt", upd)] in
+  walk_ok raw = true /\ shape_ok raw = false /\ parse_query e raw src false = Panic "nil dereference: n.FromClause.Items".
+Proof. vm_compute. repeat split; reflexivity. Qed.
+Print Assumptions C18_refuted_on_malformed_tree.
 
 Definition C18_full_statement : Prop :=
   forall e raw src pos, walk_ok raw = true -> no_panic (parse_query e raw src pos).
